@@ -544,7 +544,9 @@ def run_check(pid, tier, seconds=None, runs=None, workers=None, verif_seed=None)
         for h in agg['harness'][:3]:
             print('HARNESS-ERROR property=%s origin=%s\n%s' % (pid, h['origin'], h['error']))
             if h.get('case') is not None:
-                hp = os.path.join(evdir, '%s-harness.json' % pid)
+                hd = os.environ.get('VERIF_EVIDENCE_DIR') or os.path.join(VERIF, 'replays')     # never next to the evidence files
+                os.makedirs(hd, exist_ok=True)
+                hp = os.path.join(hd, '%s-harness.json' % pid)
                 with open(hp, 'w') as fh:
                     json.dump({'property': pid, 'case': h['case']}, fh, default=_js)
         return EXIT_HARNESS
